@@ -60,6 +60,7 @@ def run(cx: Cx):
         evs = p.events
         apps = [e for e in evs if e.kind == 'store' and e.data.get('loc') == RLOC]
         recs = [e.data.get('value') for e in evs if e.kind == 'assign' and isinstance(e.data.get('value'), Fresh) and e.data['value'].kind in ('dict', 'call:dict')]
+        recs = [r for i_, r in enumerate(recs) if not any(r is q for q in recs[:i_])]   # a helper's `d = {}; return d` is one allocation
         seeded = False
         if len(recs) == 1 and recs[0].items and all(isinstance(it_, TupleT) and len(it_.items) == 2 and it_.items[0] == Const('timestep')
                                                     for it_ in recs[0].items) and len(recs[0].items) == 1:
